@@ -394,11 +394,25 @@ distinct = distinct input strings (each is one input of the quantifier)"
         }
     }
     // lengths 0..64 of plain ASCII
-    for n in (0..=64usize).step_by(if tier == "miri" { 8 } else { 1 }) {
+    // every length up to 1100 bytes (beyond 255 and 256 + 16, 512 + 16, 1024 + 16: a length kept in one byte wraps there)
+    for n in (0..=1100usize).step_by(if tier == "miri" { 37 } else { 1 }) {
         let s: String = (0..n).map(|i| FILL[i % 16] as char).collect();
         judge(&mut rep, &s, "length_sweep", true);
+        if n > 16 {
+            // over-long AND containing a character that is not allowed early on: still a length error
+            let mut t = s.clone().into_bytes();
+            t[3] = 7;
+            judge(&mut rep, std::str::from_utf8(&t).unwrap(), "length_sweep_with_offender", n < 300);
+        }
         rep.distinct_extra += 1;
-        rep.hist("length_sweep", if n == 0 { "0" } else if n <= 16 { "1-16" } else { ">16" }, 1);
+        rep.hist("length_sweep", if n == 0 { "0" } else if n <= 16 { "1-16" } else if n <= 255 { "17-255" } else { ">255" }, 1);
+    }
+    if tier != "miri" {
+        for n in [65_535usize, 65_536, 65_537, 65_540, 65_552, 65_553] {
+            let s: String = (0..n).map(|i| FILL[i % 16] as char).collect();
+            judge(&mut rep, &s, "length_sweep_far_beyond", false);
+            rep.distinct_extra += 1;
+        }
     }
     judge(&mut rep, "", "empty", true);
     // ---- 3. Eq / Ord / Hash follow the normalised text
